@@ -179,6 +179,7 @@ package measurements
 //@   maintains[C18] m
 //@   ensures[C18] like_new: m.stdev == 0.0 && m.normalized == 0.0 && m.average.seenSamples == 0 && m.average.value == 0.0 && m.average.alpha == m.average.initialAlpha && m.variance.seenSamples == 0 && m.variance.value == 0.0 && m.variance.alpha == m.variance.initialAlpha
 //@   owns[C17]
+//@   assigns m.stdev, m.normalized, m.average.seenSamples, m.average.value, m.average.alpha, m.variance.seenSamples, m.variance.value, m.variance.alpha
 
 // ---------------------------------------------------------------------------------------------
 //@ type WindowlessMovingPercentile
@@ -190,6 +191,7 @@ package measurements
 //@ func (*WindowlessMovingPercentile).add
 //@   requires locked: held(m.mu)
 //@   owns[C17]
+//@   assigns m.seenCount, m.delta, m.value, m.deltaState.stdev, m.deltaState.normalized, m.deltaState.average.seenSamples, m.deltaState.average.value, m.deltaState.variance.seenSamples, m.deltaState.variance.value
 
 //@ func (*WindowlessMovingPercentile).Reset
 //@   maintains[C18] m
@@ -260,12 +262,14 @@ package measurements
 //@   establishes[C18] ret0 != nil ==> ret0
 //@   ensures[C18] fresh_state: ret0 != nil ==> ret1 == nil && fresh(ret0) && ret0.average.value == 0.0 && ret0.variance.value == 0.0 && ret0.average.seenSamples == 0 && ret0.variance.seenSamples == 0
 //@   ensures[C18] rejects: (alphaAverage < 0.0 || alphaAverage > 1.0 || alphaVariance < 0.0 || alphaVariance > 1.0) ==> ret0 == nil && ret1 != nil
+//@   assigns nothing
 //@ func NewWindowlessMovingPercentile
 //@   ensures[C18] value_or_error: (ret0 == nil) <==> (ret1 != nil)
 //@   requires numbers: !isNaN(movingAvgAlphaAvg) && !isNaN(movingVarianceAlphaVar) && isFinite(deltaInitial) && !isNaN(p)
 //@   establishes[C18] ret0 != nil ==> ret0
 //@   ensures[C18] fresh_state: ret0 != nil ==> ret1 == nil && fresh(ret0) && ret0.p == p && ret0.delta == deltaInitial && ret0.deltaInitial == deltaInitial
 //@   ensures[C18] rejects: (p <= 0.0 || p >= 1.0) ==> ret0 == nil && ret1 != nil
+//@   assigns nothing
 
 // The zero value is a valid (empty) minimum: induction base, see zz_lemmas_verif.go.
 //@ func zeroMinimumMeasurement
@@ -280,10 +284,12 @@ package measurements
 //@   ensures[C18] applies_once: ncalls("funcvalue:param#0") == 1 && callarg("funcvalue:param#0", 0, 0) == old(m.value) && m.value == callres("funcvalue:param#0", 0, 0)
 //@   ensures[C18] rest_kept: m.sum == old(m.sum) && m.count == old(m.count)
 //@   owns[C17]
+//@   assigns m.value
 //@ func (*SimpleMovingVariance).Update
 //@   maintains m
 //@   ensures[C18] applies_once: ncalls("funcvalue:param#0") == 1 && callarg("funcvalue:param#0", 0, 0) == m.variance.value && m.stdev == callres("funcvalue:param#0", 0, 0)
 //@   owns[C17]
+//@   assigns m.stdev
 
 //@ func (*WindowlessMovingPercentile).Add
 //@   ensures[C18] delegates: ncalls("(*measurements.WindowlessMovingPercentile).add") == 1 && callarg("(*measurements.WindowlessMovingPercentile).add", 0, 0) == value && ret0 == callres("(*measurements.WindowlessMovingPercentile).add", 0, 0) && ret1 == callres("(*measurements.WindowlessMovingPercentile).add", 0, 1) && calledUnder("(*measurements.WindowlessMovingPercentile).add", 0, m.mu)
